@@ -7,11 +7,11 @@ CONSTANTS
  Defect = "none"
  MaxTime = 4
  MaxAtt = 2
- ShutTOs <- TONever
- PCancel = {1}
+ ShutTOs <- TOBoth
+ PCancel = {1, 2}
  Gates = {FALSE, TRUE}
- DL1 <- DL2
- DL2s <- DLN
+ DL1 <- DL24
+ DL2s <- DLN3
  W3 <- WT
  Res <- R3
 INVARIANTS Safety
